@@ -6,6 +6,7 @@ module tree is enumerated.  Oracles are evaluated over the recorded history.
 """
 import copy
 import os
+import re
 
 from .. import core, gen_rust, gen_tree
 from ..engine import Verdict
@@ -52,6 +53,23 @@ def generate(rng, tier):
                                                  {"modrs", "cfg_if", "cfg_match"}, {"modrs", "symlinkmod"}, {"modrs", "path", "symlinkmod"}]))
         trees.append(t.to_json())
         files.update(t.files)
+    # a long chain of out-of-line modules, one inside the other (an honest, if unusual, layout): the offending file
+    # may sit at any depth
+    if rng.chance(7):
+        i = rng.below(nroots)
+        root = trees[i]["root"]
+        d = os.path.dirname(root)
+        prev, n = root, rng.range(33, 40)
+        for j in range(1, n + 1):
+            name = "kc%d_%d" % (i, j)
+            f = os.path.join(d, name + ".rs")
+            files[f] = gen_rust.tiny_unformatted(name)
+            files[prev] = "mod %s;\n" % name + core.file_bytes(files[prev]).decode()
+            trees[i]["reach"].append(f)
+            trees[i].setdefault("decls", []).append([prev, name, f])
+            d = os.path.join(d, name)
+            prev = f
+        trees[i].setdefault("features", []).append("deepchain")
     order = rng.shuffle(list(range(nroots)))
     nvict = 2 if nroots >= 3 and rng.chance(20) else 1
     victims = sorted(rng.sample(list(range(nroots)), nvict))
@@ -240,6 +258,12 @@ def execute(case):
         v1 = victims[0]
         skip = case.get("ignored", {}).get(str(v1))
         positions = case["positions"] or [f for f in _tree_files(trees[v1]) if f != skip]
+        if case["positions"] is None and "deepchain" in trees[v1].get("features", []):
+            # of a long chain, the shallow end, the middle and every depth from 30 on
+            def keep(f):
+                mm = re.match(r"^kc\d+_(\d+)\.rs$", os.path.basename(f))
+                return mm is None or int(mm.group(1)) in (1, 16) or int(mm.group(1)) >= 30
+            positions = [f for f in positions if keep(f)]
         for pos in positions:
             world = copy.deepcopy(case["world"])
             r1 = apply_fault(case, world, v1, pos)
